@@ -164,10 +164,47 @@ theorem clearAll_good (c : Cfg) (s : St) (hs : Good c s) : Good c (clearAll s) :
 theorem clearFrac_good (c : Cfg) (h : WF c = true) (s : St) (hs : Good c s) : Good c (clearFrac c s) :=
   ⟨clearFrac_inv c h s hs.1, clearFrac_ledger c h s hs.1 hs.2⟩
 
-theorem act_good (c : Cfg) (h : WF c = true) (s : St) (op : Op) (hs : Good c s) : Good c (act c s op) := by
-  cases op with
-  | coin i =>
-    simp only [act]
+theorem enableCredit_good (c : Cfg) (s : St) (hs : Good c s) : Good c (enableCredit c s) :=
+  Good_congr rfl rfl rfl rfl rfl rfl hs
+
+theorem enableFree_good (c : Cfg) (s : St) (hs : Good c s) : Good c (enableFree c s) :=
+  Good_congr rfl rfl rfl rfl rfl rfl hs
+
+theorem togglePlay_good (c : Cfg) (s : St) (hs : Good c s) : Good c (togglePlay c s) := by
+  unfold togglePlay
+  split
+  · exact enableCredit_good c s hs
+  · exact enableFree_good c s hs
+
+theorem boot_good (c : Cfg) (s : St) (hs : Good c s) : Good c (boot c s) := by
+  unfold boot
+  split
+  · exact Good_congr rfl rfl rfl rfl rfl rfl (enableFree_good c s hs)
+  · exact Good_congr rfl rfl rfl rfl rfl rfl (enableCredit_good c s hs)
+
+/-- a power cycle keeps the balance or drops it (the drop is booked as lost) -/
+theorem reboot_good (c : Cfg) (s : St) (off : Nat) (hs : Good c s) : Good c (reboot c s off) := by
+  unfold reboot
+  apply boot_good
+  obtain ⟨⟨h0, hm⟩, ⟨hl, hl0⟩⟩ := hs
+  refine ⟨⟨?_, ?_⟩, ⟨?_, ?_⟩⟩
+  · show (0 : Int) ≤ if _ then s.units else 0
+    split <;> omega
+  · intro hx
+    show (if _ then s.units else (0 : Int)) ≤ maxUnits c
+    have := hm hx
+    have := maxUnits_nonneg c
+    split <;> omega
+  · show (if _ then s.units else (0 : Int)) = s.inUnits + s.bonus + s.granted - s.deducted - (s.lost + (s.units - if _ then s.units else (0 : Int)))
+    split <;> omega
+  · show 0 ≤ s.lost + (s.units - if _ then s.units else (0 : Int))
+    split <;> omega
+
+theorem notEnough_good (c : Cfg) (s : St) (hs : Good c s) : Good c (notEnough s) :=
+  Good_congr rfl rfl rfl rfl rfl rfl hs
+
+theorem coinHit_good (c : Cfg) (h : WF c = true) (s : St) (i : Nat) (hs : Good c s) : Good c (coinHit c s i) := by
+    unfold coinHit
     split
     · exact hs
     · split
@@ -182,6 +219,12 @@ theorem act_good (c : Cfg) (h : WF c = true) (s : St) (op : Op) (hs : Good c s) 
           - (addUnits c s (v / creditUnit c) true).deducted - (addUnits c s (v / creditUnit c) true).lost ∧
           0 ≤ (addUnits c s (v / creditUnit c) true).lost
         omega
+
+theorem act_good (c : Cfg) (h : WF c = true) (s : St) (op : Op) (hs : Good c s) : Good c (act c s op) := by
+  cases op with
+  | coin i => exact coinHit_good c h s i hs
+  | coinToggle i => exact togglePlay_good c _ (coinHit_good c h s i hs)
+  | reboot off => exact reboot_good c s off hs
   | service =>
     simp only [act]
     split
@@ -216,9 +259,11 @@ theorem act_good (c : Cfg) (h : WF c = true) (s : St) (op : Op) (hs : Good c s) 
     split
     · split
       · exact ballStarting_good c _ _ _ (joinPlayer_good c _ _ (gameStarted_good c s hs))
-      · exact hs
+      · exact notEnough_good c s hs
     · split
-      · exact joinPlayer_good c _ _ hs
+      · split
+        · exact joinPlayer_good c _ _ hs
+        · exact notEnough_good c s hs
       · exact hs
   | drain =>
     simp only [act]
@@ -235,11 +280,9 @@ theorem act_good (c : Cfg) (h : WF c = true) (s : St) (op : Op) (hs : Good c s) 
     · exact hs
     · exact gameOver_good c s hs
   | adv n => exact hs
-  | fpOn => exact Good_congr rfl rfl rfl rfl rfl rfl hs
-  | fpOff => exact Good_congr rfl rfl rfl rfl rfl rfl hs
-  | toggle =>
-    simp only [act]
-    split <;> exact Good_congr rfl rfl rfl rfl rfl rfl hs
+  | fpOn => exact enableFree_good c s hs
+  | fpOff => exact enableCredit_good c s hs
+  | toggle => exact togglePlay_good c s hs
   | reset => exact clearAll_good c s hs
   | slam => exact clearAll_good c s hs
   | earnReset => exact Good_congr rfl rfl rfl rfl rfl rfl hs
@@ -248,7 +291,7 @@ theorem fireFrac_good (c : Cfg) (h : WF c = true) (s : St) (hs : Good c s) : Goo
   unfold fireFrac
   split
   · split
-    · exact clearFrac_good c h _ (Good_congr rfl rfl rfl rfl rfl rfl hs)
+    · exact Good_congr rfl rfl rfl rfl rfl rfl (clearFrac_good c h _ (Good_congr rfl rfl rfl rfl rfl rfl hs))
     · exact hs
   · exact hs
 
@@ -256,7 +299,7 @@ theorem fireAll_good (c : Cfg) (s : St) (hs : Good c s) : Good c (fireAll s) := 
   unfold fireAll
   split
   · split
-    · exact clearAll_good c _ (Good_congr rfl rfl rfl rfl rfl rfl hs)
+    · exact Good_congr rfl rfl rfl rfl rfl rfl (clearAll_good c _ (Good_congr rfl rfl rfl rfl rfl rfl hs))
     · exact hs
   · exact hs
 
@@ -271,28 +314,62 @@ theorem run_good (c : Cfg) (h : WF c = true) (ops : List Op) (s : St) (hs : Good
   | nil => exact hs
   | cons op rest ih => exact ih _ (step_good c h s op hs)
 
-theorem init_good (c : Cfg) : Good c (init c) := by
-  unfold init
-  split <;> exact ⟨⟨Int.le_refl 0, fun _ => maxUnits_nonneg c⟩, ⟨rfl, Int.le_refl 0⟩⟩
+theorem init_good (c : Cfg) : Good c (init c) :=
+  boot_good c _ ⟨⟨Int.le_refl 0, fun _ => maxUnits_nonneg c⟩, ⟨rfl, Int.le_refl 0⟩⟩
 
 end MpfVerif.Credits
 
 namespace MpfVerif.Credits
 
-/-- only the start button, a ball end and a game end touch the game / player list -/
-theorem game_unchanged (c : Cfg) (s : St) (op : Op) (h1 : op ≠ .start) (h2 : op ≠ .drain) (h3 : op ≠ .endGame) :
-    players (act c s op) = players s := by
-  have : (act c s op).game = s.game := by
-    cases op with
-    | start => exact absurd rfl h1
-    | drain => exact absurd rfl h2
-    | endGame => exact absurd rfl h3
-    | coin i => simp only [act]; split; rfl; split <;> rfl
-    | service => simp only [act]; split <;> rfl
-    | event j => simp only [act]; split; rfl; split <;> rfl
-    | toggle => simp only [act]; split <;> rfl
-    | _ => rfl
-  unfold players; rw [this]
+theorem coinHit_game (c : Cfg) (s : St) (i : Nat) : (coinHit c s i).game = s.game := by
+  unfold coinHit; split; rfl; split <;> rfl
+
+theorem togglePlay_game (c : Cfg) (s : St) : (togglePlay c s).game = s.game := by
+  unfold togglePlay; split <;> rfl
+
+theorem boot_game (c : Cfg) (s : St) : (boot c s).game = s.game := by
+  simp only [boot]; split <;> rfl
+
+theorem boot_audit (c : Cfg) (s : St) : (boot c s).coinCount = s.coinCount ∧ (boot c s).earn = s.earn := by
+  simp only [boot]; split <;> exact ⟨rfl, rfl⟩
+
+theorem reboot_game (c : Cfg) (s : St) (off : Nat) : (reboot c s off).game = none := by
+  unfold reboot; rw [boot_game]
+
+/-- only the start button makes the number of players grow (a ball end, a game end and a power cycle can only end the
+game; nothing else touches the player list) -/
+theorem players_not_grow (c : Cfg) (s : St) (op : Op) (h1 : op ≠ .start) : players (act c s op) ≤ players s := by
+  cases op with
+  | start => exact absurd rfl h1
+  | drain =>
+    simp only [act]
+    split
+    · omega
+    · rename_i g hg
+      unfold ballStarting gameOver
+      repeat' split
+      all_goals simp [players, hg]
+  | endGame =>
+    simp only [act]
+    split
+    · omega
+    · unfold gameOver; split <;> simp [players]
+  | reboot off => simp [act, players, reboot_game]
+  | coin i => simp [act, players, coinHit_game]
+  | coinToggle i => simp [act, players, coinHit_game, togglePlay_game]
+  | toggle => simp [act, players, togglePlay_game]
+  | service =>
+    have : (act c s .service).game = s.game := by simp only [act]; split <;> rfl
+    simp [players, this]
+  | event j =>
+    have : (act c s (.event j)).game = s.game := by simp only [act]; split; rfl; split <;> rfl
+    simp [players, this]
+  | adv n => exact Nat.le_refl _
+  | fpOn => exact Nat.le_refl _
+  | fpOff => exact Nat.le_refl _
+  | reset => exact Nat.le_refl _
+  | slam => exact Nat.le_refl _
+  | earnReset => exact Nat.le_refl _
 
 end MpfVerif.Credits
 
@@ -302,6 +379,7 @@ namespace MpfVerif.Credits
 credit play (in free play the coin switches are not watched) -/
 def accepted (c : Cfg) (s : St) : Op → Nat × Nat
   | .coin i => if s.freePlay then (0, 0) else match c.coins[i]? with | none => (0, 0) | some v => (1, v)
+  | .coinToggle i => if s.freePlay then (0, 0) else match c.coins[i]? with | none => (0, 0) | some v => (1, v)
   | _ => (0, 0)
 
 /-- coins and money accepted over a history -/
@@ -321,12 +399,24 @@ theorem act_audit (c : Cfg) (s : St) (op : Op) (h : op ≠ .earnReset) :
   cases op with
   | earnReset => exact absurd rfl h
   | coin i =>
-    simp only [act, accepted]
+    simp only [act, accepted, coinHit]
     cases hf : s.freePlay
     · cases hc : c.coins[i]? with
       | none => exact ⟨rfl, rfl⟩
       | some v => exact ⟨rfl, rfl⟩
     · exact ⟨rfl, rfl⟩
+  | coinToggle i =>
+    have ht : ∀ x : St, (togglePlay c x).coinCount = x.coinCount ∧ (togglePlay c x).earn = x.earn := by
+      intro x; unfold togglePlay; split <;> exact ⟨rfl, rfl⟩
+    simp only [act, accepted]
+    rw [(ht _).1, (ht _).2]
+    simp only [coinHit]
+    cases hf : s.freePlay
+    · cases hc : c.coins[i]? with
+      | none => exact ⟨rfl, rfl⟩
+      | some v => exact ⟨rfl, rfl⟩
+    · exact ⟨rfl, rfl⟩
+  | reboot off => simp only [act, accepted, reboot]; exact boot_audit c _
   | service => simp only [act, accepted]; split <;> exact ⟨rfl, rfl⟩
   | event j =>
     simp only [act, accepted]
@@ -348,7 +438,7 @@ theorem act_audit (c : Cfg) (s : St) (op : Op) (h : op ≠ .earnReset) :
     unfold gameOver
     repeat' split
     all_goals exact ⟨rfl, rfl⟩
-  | toggle => simp only [act, accepted]; split <;> exact ⟨rfl, rfl⟩
+  | toggle => simp only [act, accepted, togglePlay]; split <;> exact ⟨rfl, rfl⟩
   | adv n => exact ⟨rfl, rfl⟩
   | fpOn => exact ⟨rfl, rfl⟩
   | fpOff => exact ⟨rfl, rfl⟩
